@@ -344,6 +344,10 @@ func walkK8sStream(cs *Case, so *streamObs, st *oracleStats, note func(*Viol)) *
 			if n > 1 {
 				st.add("runs_joined", 1)
 				st.add("lines_collapsed", int64(n-1))
+				if ev.rec.HeldFor > 0 {
+					st.add("joined_read_late", 1)
+					st.add("k8s_joined_read_late", 1)
+				}
 			} else {
 				st.add("runs_single", 1)
 			}
